@@ -138,39 +138,47 @@ FoldAll(id) == [i \in 1..Len(id) |-> Fold(id[i])]
 Fail == [ok |-> FALSE, parts |-> <<>>]
 
 \* mode: "start" (a part must begin), "word", "quoted", "after" (a "." or the end must follow)
-RECURSIVE Scan(_, _, _, _, _)
-Scan(t, i, mode, cur, acc) ==
+\* f = TRUE: bare words are folded to lower case (parse_str); f = FALSE: case is preserved
+\* (parse_str_normalized(.., ignore_case = true), from_qualified_name_ignore_case, enable_ident_normalization = false)
+Norm(id, f) == IF f THEN FoldAll(id) ELSE id
+RECURSIVE Scan(_, _, _, _, _, _)
+Scan(t, i, mode, cur, acc, f) ==
     IF i > Len(t) THEN
-        CASE mode = "word"   -> [ok |-> TRUE, parts |-> Append(acc, FoldAll(cur))]
+        CASE mode = "word"   -> [ok |-> TRUE, parts |-> Append(acc, Norm(cur, f))]
           [] mode = "after"  -> [ok |-> TRUE, parts |-> acc]
           [] OTHER           -> Fail       \* empty input, trailing period, unterminated quote
     ELSE LET c == t[i] IN
         CASE mode = "start" ->
-                 IF c = SP THEN Scan(t, i + 1, "start", cur, acc)
-                 ELSE IF c = DQ THEN Scan(t, i + 1, "quoted", <<>>, acc)
-                 ELSE IF WordStart(c) THEN Scan(t, i + 1, "word", <<c>>, acc)
+                 IF c = SP THEN Scan(t, i + 1, "start", cur, acc, f)
+                 ELSE IF c = DQ THEN Scan(t, i + 1, "quoted", <<>>, acc, f)
+                 ELSE IF WordStart(c) THEN Scan(t, i + 1, "word", <<c>>, acc, f)
                  ELSE Fail
           [] mode = "word" ->
-                 IF WordRest(c) THEN Scan(t, i + 1, "word", Append(cur, c), acc)
-                 ELSE IF c = DOT THEN Scan(t, i + 1, "start", <<>>, Append(acc, FoldAll(cur)))
-                 ELSE IF c = SP THEN Scan(t, i + 1, "after", <<>>, Append(acc, FoldAll(cur)))
+                 IF WordRest(c) THEN Scan(t, i + 1, "word", Append(cur, c), acc, f)
+                 ELSE IF c = DOT THEN Scan(t, i + 1, "start", <<>>, Append(acc, Norm(cur, f)), f)
+                 ELSE IF c = SP THEN Scan(t, i + 1, "after", <<>>, Append(acc, Norm(cur, f)), f)
                  ELSE Fail                 \* a quote glued to a word is not an identifier
           [] mode = "quoted" ->
                  IF c = DQ THEN
                      IF i < Len(t) /\ t[i + 1] = DQ
-                     THEN Scan(t, i + 2, "quoted", Append(cur, DQ), acc)
-                     ELSE Scan(t, i + 1, "after", <<>>, Append(acc, cur))   \* verbatim, no folding
-                 ELSE Scan(t, i + 1, "quoted", Append(cur, c), acc)
+                     THEN Scan(t, i + 2, "quoted", Append(cur, DQ), acc, f)
+                     ELSE Scan(t, i + 1, "after", <<>>, Append(acc, cur), f)   \* verbatim, no folding
+                 ELSE Scan(t, i + 1, "quoted", Append(cur, c), acc, f)
           [] OTHER -> \* "after"
-                 IF c = SP THEN Scan(t, i + 1, "after", cur, acc)
-                 ELSE IF c = DOT THEN Scan(t, i + 1, "start", <<>>, acc)
+                 IF c = SP THEN Scan(t, i + 1, "after", cur, acc, f)
+                 ELSE IF c = DOT THEN Scan(t, i + 1, "start", <<>>, acc, f)
                  ELSE Fail
 
-ParseMulti(t) == Scan(t, 1, "start", <<>>, <<>>)
+ParseMultiF(t, f) == Scan(t, 1, "start", <<>>, <<>>, f)
+ParseMulti(t) == ParseMultiF(t, TRUE)
 
 (* parse with the fall-back of parse_str / from_qualified_name: maxParts = 3 (table), 4 (column), 2 (schema) *)
 Parse(t, maxParts) ==
     LET r == ParseMulti(t) IN
+    IF r.ok /\ Len(r.parts) \in 1..maxParts THEN r.parts ELSE <<t>>
+
+ParseF(t, maxParts, f) ==
+    LET r == ParseMultiF(t, f) IN
     IF r.ok /\ Len(r.parts) \in 1..maxParts THEN r.parts ELSE <<t>>
 
 MaxParts(k) == CASE k = "T" -> 3 [] k = "C" -> 4 [] OTHER -> 2
@@ -179,6 +187,19 @@ RoundTripHolds(k, ref) == Parse(Render(ref), MaxParts(k)) = ref
 
 (* the unquoted form parses back exactly when every part is bare *)
 FlatHolds(k, ref) == (\A i \in 1..Len(ref) : Bare(ref[i])) => Parse(Flat(ref), MaxParts(k)) = ref
+
+(* case-preserving parse: the quoted form still round-trips, and so does the UNQUOTED form of word-shaped parts *)
+WordShaped(id) == Len(id) > 0 /\ WordStart(id[1]) /\ \A i \in 2..Len(id) : WordRest(id[i])
+RoundTripICHolds(k, ref) == ParseF(Render(ref), MaxParts(k), FALSE) = ref
+FlatICHolds(k, ref) == (\A i \in 1..Len(ref) : WordShaped(ref[i])) => ParseF(Flat(ref), MaxParts(k), FALSE) = ref
+
+(* TableReference::resolve: missing leading parts are taken from the defaults; the resolved reference is a
+   3-part reference like any other (ResolvedTableReference -> TableReference::Full) *)
+Resolve(ref, dc, ds) == CASE Len(ref) = 3 -> ref [] Len(ref) = 2 -> <<dc>> \o ref [] OTHER -> <<dc, ds>> \o ref
+ResolveHolds(ref) == \A dc \in {<<"d", "c">>, <<"D", "sp", "c">>} : \A ds \in {<<"p">>, <<"p", ".", "S">>} :
+                        LET r3 == Resolve(ref, dc, ds) IN
+                        /\ Len(r3) = 3 /\ r3[3] = ref[Len(ref)]
+                        /\ Parse(Render(r3), 3) = r3
 
 -----------------------------------------------------------------------------
 (* Lemmas about single identifiers, checked as ASSUMEs over the whole alphabet scope *)
@@ -227,12 +248,16 @@ Complete == Len(p) = n
 
 RoundTrip == Complete => RoundTripHolds(k, p)
 FlatRoundTrip == Complete => FlatHolds(k, p)
+RoundTripIC == Complete => RoundTripICHolds(k, p)
+FlatRoundTripIC == Complete => FlatICHolds(k, p)
+ResolveRoundTrip == (Complete /\ k = "T") => ResolveHolds(p)
 
 \* classification of a case, for vacuity accounting in the driver
 Shape(ref) == [bare     |-> Cardinality({i \in 1..Len(ref) : Bare(ref[i])}),
                escaped  |-> Cardinality({i \in 1..Len(ref) : \E j \in 1..Len(ref[i]) : ref[i][j] = DQ}),
                dotted   |-> Cardinality({i \in 1..Len(ref) : \E j \in 1..Len(ref[i]) : ref[i][j] = DOT}),
                upper    |-> Cardinality({i \in 1..Len(ref) : \E j \in 1..Len(ref[i]) : ref[i][j] \in Upper}),
+               word     |-> Cardinality({i \in 1..Len(ref) : WordShaped(ref[i])}),
                empty    |-> Cardinality({i \in 1..Len(ref) : ref[i] = <<>>})]
 
 Emit == (EMIT /\ Complete) =>
